@@ -130,6 +130,14 @@ func (ds *DataSource) Typecheck(ctx context.Context, env physical.Environment, l
 		}
 		mapping := make(map[string]string, len(cte.UniqueVariableMapping))
 		for name, unique := range cte.UniqueVariableMapping {
+			// Like a subquery, the common table expression is known by the alias of the reference only.
+			if dotIndex := strings.Index(name, "."); dotIndex != -1 {
+				name = name[dotIndex+1:]
+			}
+			name = ds.alias + "." + name
+			if _, ok := mapping[name]; ok {
+				panic(fmt.Errorf("duplicate column name: '%s'", name))
+			}
 			mapping[name] = renamed[unique]
 		}
 		return physical.Node{
